@@ -5,6 +5,7 @@ R: W3C production subset-of live rdflib pattern (strings of every length, z3 reg
 """
 import itertools
 import random
+import re
 import time
 
 from .. import kern
@@ -75,7 +76,7 @@ def r_obligations():
     obs["read/IRIREF-abs<=r_uriref"] = (sub(IRIREF_ABS, lambda nt, n3, t: rx.to_z3(nt.r_uriref)), "nt-iri")
     obs["read/STRING_LITERAL_QUOTE<=ntriples.literal"] = (sub(STRING_LITERAL_QUOTE, lambda nt, n3, t: rx.to_z3(nt.literal)), "nt-string")
     obs["read/NT-literal<=r_literal"] = (sub(NT_LITERAL, lambda nt, n3, t: rx.to_z3(nt.r_literal)), "nt-literal")
-    obs["read/LANGTAG<=term._lang_tag_regex"] = (sub(LANGTAG_BODY, lambda nt, n3, t: rx.to_z3(t._lang_tag_regex)), "lang")
+    obs["read/LANGTAG<=term._lang_tag_regex"] = (sub(LANGTAG_BODY, lambda nt, n3, t: rx.accepted_language(t, "_lang_tag_regex")), "lang")
     obs["read/LANGTAG<=notation3.langcode"] = (sub(LANGTAG_BODY, lambda nt, n3, t: rx.to_z3(n3.langcode)), "ttl-lang")
     obs["read/BLANK_NODE_LABEL-ascii<=r_nodeid"] = (sub(BLANK_NODE_LABEL_ASCII, lambda nt, n3, t: rx.to_z3(nt.r_nodeid)), "nt-bnode")
     obs["read/BLANK_NODE_LABEL<=r_nodeid"] = (sub(BLANK_NODE_LABEL, lambda nt, n3, t: rx.to_z3(nt.r_nodeid)), "nt-bnode")
@@ -157,6 +158,16 @@ def _replay_witness(kind, w):
         if kind == "lang":
             from rdflib import Literal
             Literal("x", lang=w)
+            return None
+        if kind == "lang-accepted":
+            # the witness is accepted by the live pattern but is not a LANGTAG: does Literal() take it?
+            from rdflib import Literal
+            try:
+                lit = Literal("x", lang=w)
+            except Exception:
+                return None
+            if lit.language is not None and re.fullmatch(LANGTAG_BODY, str(lit.language)) is None:
+                return "Literal() accepts the language tag %r, which no RDF syntax can write (n3() gives %r)" % (w, lit.n3())
             return None
         if kind == "ttl-lang":
             doc = '<urn:s> <urn:p> "x"@%s .\n' % w
